@@ -121,3 +121,52 @@ func VerifC05Twin(maxMsgs, allowCancel, small int) {
 	VerifC05(maxMsgs, allowCancel, small)
 	vFail("C05.twin")
 }
+
+// VerifC05Late: a reply that arrives after its call has returned is discarded and never
+// observed by another call - also when it arrives WHILE a later call is collecting replies.
+// Call A (rpc / quorum call / async / correctable) is cancelled after its request reached the
+// peer, which holds the answer back. Call B (same four kinds, live context) is issued and its
+// request written. Only now the peer answers A's request: B must not move - its quorum
+// function must not run, nothing may be returned. Then the peer answers B's request: B
+// completes with exactly that reply. (Reply channels or routing entries recycled between
+// calls - pools, free lists, reused ids - show up here.)
+func VerifC05Late() {
+	w := vFullStack(1, []bool{true})
+	p := w.peers[0]
+	kinds := []int{ckRPC, ckQC, ckAsync, ckCorrectable}
+	ka := kinds[vChoice("first", len(kinds))]
+	kb := kinds[vChoice("second", len(kinds))]
+	a := fsNewCall(ka, 1, 1)
+	go a.run(w, w.cfg)
+	vQuiescent() // A's request is on the wire, the peer is silent
+	xa := p.take()
+	vAssert(xa != nil, "C06.request-not-delivered")
+	a.cancel()
+	vQuiescent()
+	vAssert(a.issued && a.returned && a.err != nil, "C08.result-not-available-after-context-end")
+	vAssert(len(a.seen) == 0, "C05.reply-nobody-sent")
+	b := fsNewCall(kb, 2, 1)
+	go b.run(w, w.cfg)
+	vQuiescent() // B's request is on the wire
+	xb := p.take()
+	vAssert(xb != nil, "C06.request-not-delivered")
+	// the late reply to A arrives while B waits
+	late := vStamp(p, xa, 0)
+	vAssert(p.reply(xa, late, nil), "harness.inbox-full")
+	vFreezeEnv()
+	vQuiescent()
+	vReach("late-reply-while-another-call-waits")
+	vAssert(len(b.seen) == 0, "C05.late-reply-observed-by-another-call|C01.reply-of-another-request-in-the-reply-set|C02.outcome-from-a-reply-no-targeted-node-sent")
+	vAssert(!b.returned, "C05.late-reply-observed-by-another-call|C02.returned-before-any-node-answered")
+	// now B's own reply
+	own := vStamp(p, xb, 1)
+	vAssert(p.reply(xb, own, nil), "harness.inbox-full")
+	vQuiescent()
+	vAssert(b.issued && b.returned, "C09.later-call-not-answered")
+	vAssert(b.err == nil, "C05.own-reply-lost|C02.error-although-quorum")
+	vAssert(len(b.seen) == 1 && b.seen[w.nodes[0].id] == protoreflect.ProtoMessage(own), "C05.reply-not-genuine|C01.reply-of-another-request-in-the-reply-set")
+	vAssert(w.routersLeft() == 0, "C18.routing-entry-left")
+	vReach("second-call-answered")
+}
+
+func VerifC05LateTwin() { VerifC05Late(); vFail("C05.twin") }
